@@ -79,14 +79,21 @@ def run(ctx):
 
             def ref(x, frm):
                 if ns_of[x] == 'NS':
-                    return 'NS::' + x if (frm != 'NS' or r.random() < 0.5) else x
+                    if frm != 'NS':
+                        # from outside, a type of NS needs its qualified name; the bare name is then undefined THERE (whoever expands the body)
+                        return 'NS::' + x if r.random() < 0.8 else x
+                    return 'NS::' + x if r.random() < 0.5 else x
                 return x
             decl = {'': '', 'NS': ''}
             for tn, refs in zip(tnames, tg):
                 fields = ', '.join('f%d: %s' % (i, r.choice(['%s', 'Set<%s>', '{ g: %s }']) % ref(tmap[x], ns_of[tn])) for i, x in enumerate(refs))
                 decl[ns_of[tn]] += 'type %s = { %s };\n' % (tn, fields)
-            text = decl[''] + 'entity A { p: %s, q?: %s }; entity B; entity C;\n' % (ref('T', ''), ref('V', ''))
-            text += 'action a appliesTo { principal: [A], resource: [B], context: %s };\n' % ref('U', '')
+            if r.random() < 0.5:
+                text = decl[''] + 'entity A { p: %s, q?: %s }; entity B; entity C;\n' % (ref('T', ''), ref('V', ''))
+                text += 'action a appliesTo { principal: [A], resource: [B], context: %s };\n' % ref('U', '')
+            else:
+                # the bare declarations use no common type: every use comes from inside NS (a bare type's body is then reached only from there)
+                text = decl[''] + 'entity A; entity B; entity C;\naction a appliesTo { principal: [A], resource: [B], context: {} };\n'
             text += 'namespace NS {\n' + decl['NS'] + 'entity N { p: %s, q?: %s } tags %s;\n' % (ref('T', 'NS'), ref('U', 'NS'), ref('V', 'NS'))
             text += 'action n appliesTo { principal: [N], resource: [N], context: { c: %s } };\n}\n' % ref('T', 'NS')
             n += 1
